@@ -117,6 +117,32 @@ theorem ack_authentic (env : Env) (hne : ∀ b, env.sha256 b ≠ []) (c : Chain)
 theorem rejected_unchanged (env : Env) (c : Chain) (now : UInt64) (m : Msg) (h : (deliver env c now m).2 ≠ .ok) :
     (deliver env c now m).1 = c := deliver_err_unchanged h
 
+/-! ### TSS-secured counterparties -/
+theorem tss_verify_signer {env : Env} {name : Bytes} {cl : Client} {now : UInt64} {h : Height} {s pf path value : Bytes}
+    (hk : cl.kind = .tss) (hv : cl.verify env name now h (cl.effProof s pf) path value = true) : s = cl.tssAddr := by
+  unfold Client.verify at hv
+  rw [hk] at hv
+  simp only [Client.effProof, hk, ↓reduceIte] at hv
+  simpa using hv
+
+/-- **tss_recv_needs_tss_signer**: a receive verified by a TSS client is accepted only if the message signer is the
+client's TSS address — whatever the proof field contains (empty, the public TSS address, anything). -/
+theorem tss_recv_needs_tss_signer (env : Env) (c : Chain) (now : UInt64) (pk pf : Bytes) (h : Height) (s : Bytes)
+    (cb : Callback) (cl : Client) (hcl : c.clients.get (env.decodePacket pk).1.src = some cl) (hk : cl.kind = .tss)
+    (hok : (deliver env c now (.recvPacket pk pf h s cb)).2 = .ok) : s = cl.tssAddr := by
+  obtain ⟨cl', hcl', hv⟩ := (handle_recv_effect (deliver_ok_handle hok)).verified
+  rw [hcl] at hcl'; injection hcl' with hcl'; subst hcl'
+  exact tss_verify_signer hk hv
+
+/-- **tss_ack_needs_tss_signer**: the same for acknowledgements — putting the (public) TSS address into `ProofAcked`
+does not help an account that is not the TSS address. -/
+theorem tss_ack_needs_tss_signer (env : Env) (c : Chain) (now : UInt64) (pk ak pf : Bytes) (h : Height) (s : Bytes)
+    (o : EvmOut) (cl : Client) (hcl : c.clients.get (env.decodePacket pk).1.dst = some cl) (hk : cl.kind = .tss)
+    (hok : (deliver env c now (.acknowledgement pk ak pf h s o)).2 = .ok) : s = cl.tssAddr := by
+  obtain ⟨cl', hcl', hv⟩ := (handle_ack_effect (deliver_ok_handle hok)).verified
+  rw [hcl] at hcl'; injection hcl' with hcl'; subst hcl'
+  exact tss_verify_signer hk hv
+
 /-! ### contrapositive: altered messages are rejected -/
 /-- soundness of the membership verifiers w.r.t. an abstract "the counterparty state with this root maps path to
 value" relation `S client root path value` -/
